@@ -1,6 +1,7 @@
 package c04
 
 import (
+	"fmt"
 	"strings"
 
 	"verifharness/internal/drv"
@@ -254,4 +255,168 @@ func randomSession(c *drv.Ctx, call func(API, Op, map[string]Arg, string, Resp) 
 		cs.Steps[i].Debug = r.Intn(6) == 0
 	}
 	return cs
+}
+
+// ---- concurrent batches ------------------------------------------------------------------
+
+// batchSteps derives the calls of a concurrent case: Count calls of one operation of apiFiles, call i with values of its
+// own (its number is part of every value), so that a value delivered to the wrong call is seen.
+func batchSteps(api API, b Batch) []Step {
+	op := api.op(b.Op)
+	steps := make([]Step, 0, b.Count)
+	for i := 0; i < b.Count; i++ {
+		tag := fmt.Sprintf("%d-%d", b.Seed, i)
+		ov := map[string]Arg{}
+		media := op.Consumes
+		for _, p := range op.Params {
+			switch {
+			case p.Kind == "strbody":
+				ov[p.Name] = one(p.Name, "note "+tag)
+				if i%2 == 1 && len(op.Alt) > 0 {
+					media = op.Alt[0]
+				}
+			case p.Kind == "multi":
+				ov[p.Name] = one(p.Name, "m"+tag, "", "n/"+tag)
+			case p.Type == "integer":
+				ov[p.Name] = one(p.Name, fmt.Sprint(1000*b.Seed+i))
+			case p.Kind == "file":
+				ov[p.Name] = Arg{Name: p.Name, FileName: "f" + tag, Len: 20 + i%600, Seed: b.Seed + i, Src: fileSrcs[i%2], Off: i % 7}
+			case p.Loc == "path":
+				ov[p.Name] = one(p.Name, p.Name+"/"+tag)
+			default:
+				ov[p.Name] = one(p.Name, p.Name+" "+tag)
+			}
+		}
+		resp := Resp{Mode: "responder", Code: 200, Len: 5 + i%40, Seed: b.Seed + i, Hdrs: []Hdr{{"X-Out", []string{tag}}}}
+		steps = append(steps, mkStep(op, ov, "none", resp, media))
+	}
+	return steps
+}
+
+// genRound3 adds: (viii) static query parameters of the base path / path pattern named like form fields and query
+// parameters; (ix) failing upload sources; (x) connection re-use x responses delivered in pieces; (xi) concurrent batches.
+func genRound3(c *drv.Ctx, emit func(Case)) {
+	thorough := c.Tier == "thorough"
+	api := apiFiles("/api")
+	items := apiItems("/api", false)
+
+	// (viii) a query key of the request URL named like a form field must not reach the form parameter (and a client-set
+	// query parameter beats a static one of its name)
+	statics := [][2][]KV{
+		{{{"f", "from-base"}}, nil},
+		{nil, {{"f", "from-pattern"}}},
+		{{{"f", "b"}, {"fm", "bm"}, {"fn", "7"}}, {{"fm", "pm"}, {"q", "static-q"}}},
+		{{{"fn", "not-a-number"}, {"other", "o"}}, {{"multi", "static-multi"}}},
+		{{{"q", "bq"}, {"multi", "bm1"}, {"id", "zz"}, {"note", "n"}}, nil},
+	}
+	for si, stc := range statics {
+		for _, fc := range []struct {
+			api   API
+			op    string
+			media string
+		}{{api, "postForm", mForm}, {api, "postForm", mMulti}, {items, "formItem", mForm}, {items, "uploadItem", mMulti}, {api, "listNotes", ""}, {api, "addNote", mJSON}, {items, "getItem", ""}} {
+			op := fc.api.op(fc.op)
+			for vi := 0; vi < 2; vi++ {
+				ov := map[string]Arg{}
+				for _, p := range op.Params {
+					switch {
+					case p.Type == "string" && p.Kind == "scalar" && p.Loc != "header" && p.Loc != "path":
+						ov[p.Name] = one(p.Name, hostileValues[(si*7+vi*3+len(p.Name))%len(hostileValues)])
+					case p.Kind == "multi":
+						ov[p.Name] = one(p.Name, []string{"m1", "", "a&b=c"}[:1+2*vi]...)
+					}
+				}
+				st := mkStep(op, ov, "none", okResp, fc.media)
+				st.PatStatic = stc[1]
+				emit(Case{API: fc.api, Shared: true, BaseStatic: stc[0], Steps: []Step{st}})
+				// and as a session: with, without, with
+				plain := st
+				plain.PatStatic = nil
+				if vi == 0 {
+					emit(Case{API: fc.api, BaseStatic: stc[0], Steps: []Step{st, plain, st}})
+				}
+			}
+		}
+	}
+
+	// (ix) upload sources that fail: at the first byte, inside and at the end of the sniffing window, right after it, in the
+	// middle, at the last byte - alone, as second file, and followed by a healthy upload on the same Runtime
+	for _, src := range []string{"reader", "memseek", "typed"} {
+		for _, n := range []int{1, 40, 512, 513, 600, 5000, 70000} {
+			for _, off := range []int{0, 3} {
+				if off >= n {
+					continue
+				}
+				rem := n - off
+				seen := map[int]bool{}
+				for _, at := range []int{0, 1, 511, 512, 513, rem / 2, rem - 1} {
+					if at < 0 || at >= rem || seen[at] {
+						continue
+					}
+					seen[at] = true
+					f := Arg{Name: "doc", FileName: "doc.bin", Len: n, Seed: n + at, Src: src, Off: off, Fails: true, FailAt: at}
+					bad := mkStep(api.op("upDoc"), map[string]Arg{"doc": f}, "none", okResp, mMulti)
+					good := mkStep(api.op("upDoc"), map[string]Arg{"doc": {Name: "doc", FileName: "ok.bin", Len: n, Seed: n, Src: src, Off: off}}, "none", okResp, mMulti)
+					emit(Case{API: api, Shared: true, Steps: []Step{bad}})
+					emit(Case{API: api, Steps: []Step{good, bad, good}})
+					f1, f2 := f, f
+					f1.Name, f1.Fails, f2.Name = "up", false, "up2"
+					emit(Case{API: items, Shared: true, Steps: []Step{mkStep(items.op("uploadItem"), map[string]Arg{"up": f1, "up2": f2}, "none", okResp, mMulti)}})
+					f1.Fails, f1.FailAt, f2.Fails = true, at, false
+					emit(Case{API: items, Shared: true, Steps: []Step{mkStep(items.op("uploadItem"), map[string]Arg{"up": f1, "up2": f2}, "none", okResp, mMulti)}})
+				}
+			}
+		}
+	}
+
+	// (x) Runtime.EnableConnectionReuse() on/off x handlers that deliver their body in flushed pieces x body sizes x produced
+	// media types x statuses; several calls per Runtime so that connections are really re-used
+	sizes := []int{0, 1, 700, 5000, 100000}
+	if thorough {
+		sizes = append(sizes, 1000000)
+	}
+	for _, reuse := range []bool{true, false} {
+		for _, chunks := range []int{1, 2, 5, 40} {
+			for si, size := range sizes {
+				var steps []Step
+				for oi, op := range items.Ops {
+					code := []int{200, 201, 404, 500}[(oi+si)%4]
+					resp := Resp{Mode: "responder", Code: code, Len: size, Seed: size + oi, Chunks: chunks, PauseUs: []int{0, 200, 1500}[(oi+si+chunks)%3],
+						Hdrs: []Hdr{{"X-Out", []string{"a b", "c"}}}}
+					st := mkStep(op, nil, "none", resp, op.Consumes)
+					steps = append(steps, st)
+				}
+				if !thorough && !reuse && chunks > 2 && si%2 == 1 {
+					continue
+				}
+				emit(Case{API: items, Reuse: reuse, Steps: steps})
+				emit(Case{API: items, Shared: true, Reuse: reuse, Steps: steps[si%len(steps) : si%len(steps)+1]})
+			}
+		}
+	}
+
+	// (xi) concurrent batches: Conc goroutines at a time make calls of ONE operation, every call with values of its own,
+	// through one Runtime to one server, at GOMAXPROCS 1 / 4 / 16; over the wire and served in the calling goroutine
+	nb := 0
+	for _, opid := range []string{"getNested", "listNotes", "addNote", "postForm", "putNote", "upDoc", "getFile"} {
+		for _, conc := range []int{8, 64} {
+			for _, procs := range []int{1, 4, 16} {
+				for _, via := range []string{"http", "inproc"} {
+					nb++
+					count := 4 * conc
+					if via == "inproc" && procs > 1 && opid != "upDoc" {
+						count = batchSize(thorough)
+					}
+					emit(Case{API: api, Shared: nb%2 == 0, Conc: conc, Procs: procs, Yield: nb%3 == 0, Via: via, Reuse: nb%4 == 0, Batch: Batch{Op: opid, Count: count, Seed: nb}})
+				}
+			}
+		}
+	}
+}
+
+func batchSize(thorough bool) int {
+	if thorough {
+		return 20000
+	}
+	return 4000
 }
